@@ -19,80 +19,199 @@ var c05Cfg = kit.WorldCfg{
 	},
 }
 
-var c05A = []string{"a1", "a2", "a3"}
-var c05B = []string{"b1", "b2", "b3", "b4"}
+// The generated histories use a richer schema than the exhaustive part: three stores, a child store over "as",
+// plain and ref-counted collections, two collections of bs whose remote symbols have the same name, a collection
+// declared on the child store, and ids that are proper prefixes of other ids.
+var c05RichCfg = kit.WorldCfg{
+	Stores:   []kit.StoreCfg{{Name: "as"}, {Name: "bs"}, {Name: "cs"}},
+	Children: []kit.ChildCfg{{Name: "ak", Parent: "as"}},
+	Links: []kit.LinkCfg{
+		{A: "as", FieldA: "blinks", B: "bs", FieldB: "alinks"},
+		{A: "as", FieldA: "rcb", B: "bs", FieldB: "rca", RefCounted: true},
+		{A: "cs", FieldA: "blinks", B: "bs", FieldB: "clinks"},
+		{A: "cs", FieldA: "rcb", B: "bs", FieldB: "rcc", RefCounted: true},
+		{A: "ak", FieldA: "klinks", B: "bs", FieldB: "kback"},
+	},
+}
+
+var c05IDs = map[string][]string{
+	"as": {"a1", "a10", "a2"},
+	"ak": {"a1", "a10", "a2"},
+	"bs": {"b1", "b10", "b2", "b"},
+	"cs": {"c1", "c10"},
+}
+
+type c05Side struct {
+	store, field, other string
+	rc                  bool
+}
+
+var c05Sides = func() []c05Side {
+	var out []c05Side
+	for _, l := range c05RichCfg.Links {
+		out = append(out, c05Side{l.A, l.FieldA, l.B, l.RefCounted}, c05Side{l.B, l.FieldB, l.A, l.RefCounted})
+	}
+	return out
+}()
 
 func genC05(t *rapid.T) kit.History {
 	// most histories start from a populated database so that link operations dominate
 	var setup []kit.TxSpec
 	if rapid.IntRange(0, 4).Draw(t, "prepopulate") > 0 {
 		tx := kit.TxSpec{}
-		for _, id := range c05A {
-			if rapid.IntRange(0, 4).Draw(t, "pre_"+id) > 0 {
-				tx.Ops = append(tx.Ops, kit.Op{Kind: "create", Store: "as", ID: id, Spec: &kit.EntSpec{Name: "n"}})
-			}
-		}
-		for _, id := range c05B {
-			if rapid.IntRange(0, 4).Draw(t, "pre_"+id) > 0 {
-				tx.Ops = append(tx.Ops, kit.Op{Kind: "create", Store: "bs", ID: id, Spec: &kit.EntSpec{Name: "n"}})
+		for _, store := range []string{"as", "bs", "cs"} {
+			for _, id := range c05IDs[store] {
+				if rapid.IntRange(0, 4).Draw(t, "pre_"+id) > 0 {
+					via := store
+					if store == "as" && rapid.Bool().Draw(t, "prekid_"+id) {
+						via = "ak" // created through the child store: has child data
+					}
+					tx.Ops = append(tx.Ops, kit.Op{Kind: "create", Store: via, ID: id, Spec: &kit.EntSpec{Name: "n"}})
+				}
 			}
 		}
 		if len(tx.Ops) > 0 {
 			setup = append(setup, tx)
 		}
 	}
-	return kit.GenHistoryFrom(t, c05Cfg, setup, 25, 3, false, 50, func(t *rapid.T, l string, m *kit.Model) kit.Op {
-		x := rapid.IntRange(0, 99).Draw(t, l+"_what")
-		missing := func(store string, ids []string) []string {
-			var out []string
-			for _, id := range ids {
-				if _, ok := m.Ents[store][id]; !ok {
-					out = append(out, id)
+	pickID := func(t *rapid.T, l, store string) string {
+		ids := c05IDs[store]
+		return ids[rapid.IntRange(0, len(ids)-1).Draw(t, l)]
+	}
+	h := genC05Random(t, setup, pickID)
+	if rapid.IntRange(0, 2).Draw(t, "shrinkTx") > 0 {
+		return h
+	}
+	// "grow then shrink in one transaction": the entity's link bucket is written, then most of it removed again,
+	// inside the same transaction (through the collection API, from the other side, or with the entity itself)
+	m := replayModel(h)
+	var plain []c05Side
+	for _, sd := range c05Sides {
+		if !sd.rc {
+			plain = append(plain, sd)
+		}
+	}
+	sd := plain[rapid.IntRange(0, len(plain)-1).Draw(t, "shrinkSide")]
+	var selfIDs, others []string
+	for _, id := range c05IDs[sd.store] {
+		if m.LinkEndExists(sd.store, id) {
+			selfIDs = append(selfIDs, id)
+		}
+	}
+	for _, id := range c05IDs[sd.other] {
+		if m.LinkEndExists(sd.other, id) {
+			others = append(others, id)
+		}
+	}
+	if len(selfIDs) == 0 || len(others) < 3 {
+		return h
+	}
+	id := selfIDs[rapid.IntRange(0, len(selfIDs)-1).Draw(t, "shrinkID")]
+	keep := []string{}
+	if rapid.Bool().Draw(t, "shrinkKeepOne") {
+		keep = append(keep, others[rapid.IntRange(0, len(others)-1).Draw(t, "shrinkKeep")])
+	}
+	tx := kit.TxSpec{}
+	switch rapid.IntRange(0, 2).Draw(t, "shrinkHow") {
+	case 0:
+		tx.Ops = []kit.Op{{Kind: "addlinks", Store: sd.store, Field: sd.field, ID: id, Keys: others},
+			{Kind: "setlinks", Store: sd.store, Field: sd.field, ID: id, Keys: keep}}
+	case 1:
+		// the first write comes from the other side of the collection
+		var otherField string
+		for _, o := range c05Sides {
+			if o.store == sd.other && o.other == sd.store && !o.rc {
+				coll1, _, _ := m.Canonical(o.store, o.field)
+				coll2, _, _ := m.Canonical(sd.store, sd.field)
+				if coll1 == coll2 {
+					otherField = o.field
 				}
 			}
-			return out
 		}
-		ma, mb := missing("as", c05A), missing("bs", c05B)
-		wantCreate := x < 8 || len(ma) == len(c05A) || len(mb) == len(c05B)
-		if wantCreate && len(ma)+len(mb) > 0 {
-			store, ids := "as", ma
-			if len(ma) == 0 || len(mb) > 0 && (len(mb) == len(c05B) || rapid.Bool().Draw(t, l+"_side")) && len(ma) < len(c05A) {
-				store, ids = "bs", mb
+		tx.Ops = []kit.Op{{Kind: "setlinks", Store: sd.store, Field: sd.field, ID: id, Keys: others}}
+		tx2 := kit.TxSpec{Ops: []kit.Op{{Kind: "addlinks", Store: sd.other, Field: otherField, ID: others[0], Keys: []string{id}},
+			{Kind: "setlinks", Store: sd.store, Field: sd.field, ID: id, Keys: keep}}}
+		h.Txs = append(h.Txs, tx)
+		tx = tx2
+	default:
+		// with the entity: update with the full list, then update with (almost) none
+		tx.Ops = []kit.Op{{Kind: "update", Store: sd.store, ID: id, Spec: &kit.EntSpec{Name: "n", LinkField: sd.field, LinkIDs: others}},
+			{Kind: "update", Store: sd.store, ID: id, Spec: &kit.EntSpec{Name: "n", LinkField: sd.field, LinkIDs: keep}}}
+	}
+	h.Txs = append(h.Txs, tx)
+	return h
+}
+
+func genC05Random(t *rapid.T, setup []kit.TxSpec, pickID func(t *rapid.T, l, store string) string) kit.History {
+	return kit.GenHistoryFrom(t, c05RichCfg, setup, 25, 3, false, 50, func(t *rapid.T, l string, m *kit.Model) kit.Op {
+		x := rapid.IntRange(0, 99).Draw(t, l+"_what")
+		switch {
+		case x < 8:
+			store := []string{"as", "ak", "bs", "bs", "cs"}[rapid.IntRange(0, 4).Draw(t, l+"_cstore")]
+			return kit.Op{Kind: "create", Store: store, ID: pickID(t, l+"_cid", store), Spec: &kit.EntSpec{Name: "n"}}
+		case x < 16:
+			store := []string{"as", "ak", "bs", "bs", "cs"}[rapid.IntRange(0, 4).Draw(t, l+"_dstore")]
+			return kit.Op{Kind: "delete", Store: store, ID: pickID(t, l+"_did", store)}
+		case x < 30:
+			// the link set is persisted together with the entity: PersistContext.SetLinkedIds from PersistEntity,
+			// on create / update / patch, through the store itself or (for "as") through the child store or the parent
+			var plain []c05Side
+			for _, sd := range c05Sides {
+				if !sd.rc {
+					plain = append(plain, sd)
+				}
 			}
-			if x >= 97 { // occasionally create an id that already exists
-				ids = map[string][]string{"as": c05A, "bs": c05B}[store]
+			sd := plain[rapid.IntRange(0, len(plain)-1).Draw(t, l+"_pside")]
+			via := sd.store
+			if m.BaseStore(sd.store) == "as" {
+				via = []string{"as", "ak"}[rapid.IntRange(0, 1).Draw(t, l+"_pvia")]
 			}
-			return kit.Op{Kind: "create", Store: store, ID: ids[rapid.IntRange(0, len(ids)-1).Draw(t, l+"_cid")], Spec: &kit.EntSpec{Name: "n"}}
+			id := pickID(t, l+"_pid", via)
+			n := rapid.IntRange(0, 4).Draw(t, l+"_pn")
+			keys := []string{}
+			for i := 0; i < n; i++ {
+				keys = append(keys, pickID(t, fmt.Sprintf("%s_pk%d", l, i), sd.other))
+			}
+			spec := &kit.EntSpec{Name: "n", Note: []string{"", "x"}[rapid.IntRange(0, 1).Draw(t, l+"_pnote")], LinkField: sd.field, LinkIDs: keys}
+			_, exists := m.Ents[m.BaseStore(via)][id]
+			switch k := rapid.IntRange(0, 9).Draw(t, l+"_pkind"); {
+			case !exists && k < 9:
+				return kit.Op{Kind: "create", Store: via, ID: id, Spec: spec}
+			case k < 5:
+				return kit.Op{Kind: "update", Store: via, ID: id, Spec: spec}
+			default:
+				fields := []string{}
+				if rapid.IntRange(0, 3).Draw(t, l+"_psel") > 0 {
+					fields = append(fields, sd.field)
+				}
+				if rapid.Bool().Draw(t, l+"_pselnote") {
+					fields = append(fields, kit.FNote)
+				}
+				return kit.Op{Kind: "patch", Store: via, ID: id, Spec: spec, Fields: fields}
+			}
 		}
-		if x >= 15 && x < 24 {
-			store, ids := "as", c05A
-			if rapid.Bool().Draw(t, l+"_dside") {
-				store, ids = "bs", c05B
+		// link operation through the collection API, from either side of any collection
+		sd := c05Sides[rapid.IntRange(0, len(c05Sides)-1).Draw(t, l+"_side")]
+		op := kit.Op{Store: sd.store, Field: sd.field, ID: pickID(t, l+"_lid", sd.store)}
+		// mostly work on an entity that exists, and (for the keys) mostly on links that exist
+		var existing []string
+		for _, id := range c05IDs[sd.store] {
+			if m.LinkEndExists(sd.store, id) {
+				existing = append(existing, id)
 			}
-			return kit.Op{Kind: "delete", Store: store, ID: ids[rapid.IntRange(0, len(ids)-1).Draw(t, l+"_did")]}
 		}
-		// link operation, from either side
-		fromA := rapid.Bool().Draw(t, l+"_fromA")
-		rc := rapid.IntRange(0, 2).Draw(t, l+"_rc") == 0
-		op := kit.Op{}
-		self, other := c05A, c05B
-		if fromA {
-			op.Store, op.Field = "as", "blinks"
-			if rc {
-				op.Field = "rcb"
-			}
-		} else {
-			op.Store, op.Field = "bs", "alinks"
-			if rc {
-				op.Field = "rca"
-			}
-			self, other = c05B, c05A
+		if len(existing) > 0 && rapid.IntRange(0, 9).Draw(t, l+"_lexisting") > 0 {
+			op.ID = existing[rapid.IntRange(0, len(existing)-1).Draw(t, l+"_lid2")]
 		}
-		op.ID = self[rapid.IntRange(0, len(self)-1).Draw(t, l+"_lid")]
+		coll, flipped, _ := m.Canonical(sd.store, sd.field)
+		linked := m.LinkedFrom(coll, flipped, op.ID)
 		key := func(i int) string {
-			return other[rapid.IntRange(0, len(other)-1).Draw(t, fmt.Sprintf("%s_key%d", l, i))]
+			if len(linked) > 0 && rapid.IntRange(0, 2).Draw(t, fmt.Sprintf("%s_keylinked%d", l, i)) > 0 {
+				return linked[rapid.IntRange(0, len(linked)-1).Draw(t, fmt.Sprintf("%s_keyl%d", l, i))]
+			}
+			return pickID(t, fmt.Sprintf("%s_key%d", l, i), sd.other)
 		}
-		if rc {
+		if sd.rc {
 			op.Kind = []string{"rcinc", "rcinc", "rcdec", "rcdec", "rcset"}[rapid.IntRange(0, 4).Draw(t, l+"_rckind")]
 			op.Keys = []string{key(0)}
 			if op.Kind == "rcset" {
@@ -191,6 +310,9 @@ func runC05(h kit.History) kit.Result {
 			case "delete":
 				for _, lc := range h.Cfg.Links {
 					coll := lc.A + "." + lc.FieldA
+					if pre.BaseStore(op.Store) != pre.BaseStore(lc.A) && op.Store != lc.B {
+						continue
+					}
 					if len(pre.LinkedFrom(coll, op.Store == lc.B, op.ID)) > 0 {
 						deleteLinked = true
 					}
@@ -210,6 +332,9 @@ func runC05(h kit.History) kit.Result {
 	for _, tx := range h.Txs {
 		for _, op := range tx.Ops {
 			res.Classes = append(res.Classes, "op:"+op.Kind)
+			if op.Spec != nil && op.Spec.LinkField != "" {
+				res.Classes = append(res.Classes, "persist-links:"+op.Kind+":via-"+op.Store)
+			}
 		}
 	}
 	return res
